@@ -45,7 +45,7 @@ Definition c04_query_ok (src : string) (raw : node) (q : query) : bool :=
   strs_eqb (q_comments q) (expected_comments text)
   && (has_star raw || strs_eqb (sql_tokens (q_sql q)) (expected_tokens text)).
 
-(** known classes of C04: 1 = a quoted lexeme spanning lines; 2 = sqlc.arg written
+(** known classes of C04: 6 = named parameters inside a multi-column assignment; 1 = a quoted lexeme spanning lines; 2 = sqlc.arg written
     with inner spaces or double quotes (the reconstructed Old text has another length) *)
 (** names in order of first use in the TEXT vs in the order the rewrite numbers them *)
 Definition named_order_differs (src : string) (raw : node) : bool :=
@@ -86,6 +86,8 @@ Definition c04_class (src : string) (raw : node) : N :=
   else if existsb (fun f => is_param_func f &&
                             existsb (fun a => is_kind "A_Const" a && contains_char "'"%char (str_of "Str" (kid "Val" a))) (kid_items "Args" f))
                   (search (is_kind "FuncCall") raw) then 2
+  else if existsb (fun m => negb (Nat.eqb (List.length (search is_param_func (kid "Source" m)) + List.length (search is_param_sign (kid "Source" m))) 0))
+                  (search (is_kind "MultiAssignRef") raw) then 6      (* named parameters inside SET (a, b) = (.., ..): the row is shared by the targets *)
   else if named_order_differs src raw then 4
   else 0.
 
